@@ -154,6 +154,17 @@ func runOp(op *casefmt.Op, st *opState) {
 			obs.InputDiff = st.shadow.diff(doc)
 		}
 	}()
+	if op.Register != "" {
+		if op.RegisterImmediate {
+			genql.RegisterImmediateFunction(op.Register, stubBody(op.Register, true))
+		} else {
+			genql.RegisterFunction(op.Register, stubBody(op.Register, true))
+		}
+		obs.Returned = true
+		obs.SeqReturn = nextSeq()
+		obs.StepReturn = zzsim.Steps()
+		return
+	}
 	if op.Reader {
 		rs, err := genql.ExecReader(doc, op.Query)
 		obs.Returned = true
@@ -217,6 +228,22 @@ func runOp(op *casefmt.Op, st *opState) {
 		st.result, st.has = rows, true
 		obs.NRows = len(rows)
 		obs.Rows, obs.Leaks, obs.JSONErr = encodeResult(rows)
+	}
+	if op.ExecTwice {
+		func() {
+			defer func() {
+				if r := recover(); r != nil {
+					obs.Exec2 = "panic: " + safeSprint(r)
+				}
+			}()
+			rows2, err2 := q.Exec()
+			if err2 != nil {
+				obs.Exec2 = "err: " + errText(err2)
+				return
+			}
+			obs.Exec2 = "ok"
+			obs.Rows2, _, _ = encodeResult(rows2)
+		}()
 	}
 	obs.InputDiff = st.shadow.diff(doc)
 	obs.VarsAfter = encodeVars(st.vars)
